@@ -119,6 +119,9 @@ def first_difference(key: str, a, b) -> str:
 
 
 # ---------------------------------------------------------------------------
+ACTIVE_STATES = ('preparing', 'submitted', 'running')
+
+
 class StoreReflectsPool(Monitor):
     name = 'store-reflects-pool'
 
@@ -130,6 +133,9 @@ class StoreReflectsPool(Monitor):
         self.batches = 0
         self.updates_seen = 0
         self.server = None
+        # identities of proxies removed from the pool while their job was
+        # live (the job's kill result / late messages are still to come)
+        self.live_removed: set = set()
 
     # the mirror and the store are path-dependent: both enter the state key
     def key(self):
@@ -140,10 +146,15 @@ class StoreReflectsPool(Monitor):
         return (store_digest(self.mirror),
                 store_digest(dsm.data[dsm.workflow_id]),
                 bool(dsm.publish_pending), bool(dsm.updates_pending),
-                dsm.n_edge_distance, dsm.next_n_edge_distance)
+                dsm.n_edge_distance, dsm.next_n_edge_distance,
+                tuple(sorted(self.live_removed)))
 
     # ------------------------------------------------------------ pool/store
     def on_event(self, kind: str, data: dict) -> None:
+        if kind == 'remove':
+            it = data['itask']
+            if it.state(*ACTIVE_STATES):
+                self.live_removed.add(it.identity)
         if kind == 'ds_update':
             self.updates_seen += 1
             COUNTS.bump('data-store updates checked')
@@ -186,10 +197,18 @@ class StoreReflectsPool(Monitor):
                 COUNTS.bump('runahead proxies compared')
             for fld, got, want in pairs:
                 if got != want:
+                    # root cause class of its own (recorded finding): the
+                    # pooled proxy replaced a proxy of the same ID that was
+                    # removed while its job was live; what that job reports
+                    # afterwards is written to the same store node
+                    why = (':respawned-after-removal-with-live-job'
+                           if it.identity in self.live_removed else '')
                     v.append(self.viol(
-                        f'store-differs-from-pool:{fld}',
+                        f'store-differs-from-pool:{fld}{why}',
                         f'{it.identity}: after the data-store update the '
                         f'store has {fld}={got!r} but the pool has {want!r}'
+                        + (' (this proxy replaced one that was removed '
+                           'while its job was live)' if why else '')
                     ))
 
     # ---------------------------------------------------------------- mirror
